@@ -6,6 +6,7 @@ Nothing here looks at the implementation; expectations follow
 docs/REFSEM.md section 9 (error class <-> trap class).
 """
 import itertools
+import re
 
 OVF = 'INVALID_CELL_VALUE'        # Overflow
 DIV0 = 'DIVISION_BY_ZERO'
@@ -35,11 +36,18 @@ ARMINGS = ['none', 'goto', 'next']
 def _case(cid, cause, construct, expect, setup=(), expr=None, rtype='n',
           stmt=None, types=(), data=(), tail=(), tier='q', operands=''):
     assert (expr is None) != (stmt is None)
+    # an unsuffixed decimal literal is SINGLE in qbee whatever its digit count;
+    # a value meant for a DOUBLE variable is written with the # suffix so that
+    # the limit values arrive exactly
+    setup = [_DBL_LIT.sub(r'\1\2#', x) for x in setup]
     return {'id': cid, 'cause': cause, 'construct': construct, 'expect': expect,
             'setup': list(setup), 'expr': expr, 'rtype': rtype,
             'stmt': list(stmt) if stmt is not None else None,
             'types': list(types), 'data': list(data), 'tail': list(tail),
             'tier': tier, 'operands': operands}
+
+
+_DBL_LIT = re.compile(r'^(\w+# = )(-?[0-9]*\.?[0-9]+)$')
 
 
 # ---------------------------------------------------------------------------
@@ -155,6 +163,41 @@ def overflow_arith_cases():
         out.append(_case(f'overflow/exp/mixed/{TNAME[lt]}-{TNAME[rt]}', 'overflow', '^', exp,
                          setup=[f'a{lt} = {big[0]}', f'b{rt} = {big[1]}'],
                          expr=f'a{lt} ^ b{rt}', tier='t', operands=lt + rt))
+    return out
+
+
+def nonfinite_cases():
+    """a DOUBLE result beyond the range: Overflow may be reported where it
+    arises or where the value is used, or not at all (DOUBLE cells are not
+    range checked) - but the use must not crash the machine"""
+    out = []
+    INFS = ['a# = 1d308', 'b# = a# * 10']
+    NANS = INFS + ['n# = b# - b#']
+    for tag, setup, v in (('inf', INFS, 'b#'), ('nan', NANS, 'n#'), ('-inf', INFS, '(-b#)')):
+        exprs = [('CINT', f'CINT({v})', 'n'), ('CLNG', f'CLNG({v})', 'n'), ('INT', f'INT({v})', 'n'),
+                 ('idiv', f'{v} \\ 2', 'n'), ('mod', f'{v} MOD 2', 'n'), ('and', f'{v} AND 1', 'n'),
+                 ('not', f'NOT {v}', 'n'), ('CHR$', f'CHR$({v})', 's'), ('STR$', f'STR$({v})', 's'),
+                 ('SPACE$', f'SPACE$({v})', 's'), ('add', f'{v} + 1', 'n'), ('mul', f'{v} * 0', 'n'),
+                 ('div', f'1 / {v}', 'n'), ('exp', f'{v} ^ 2', 'n'), ('compare', f'{v} > 1', 'n'),
+                 ('ABS', f'ABS({v})', 'n')]
+        for name, e, rt in exprs:
+            out.append(_case(f'nonfinite/{tag}/{name}', 'overflow', 'non-finite', MAYBE(OVF, IFC, DIV0),
+                             setup=setup, expr=e, rtype=rt, operands='#',
+                             tier='q' if tag != '-inf' else 't'))
+        stmts = [('to-INTEGER', [f'c% = {v}']), ('to-LONG', [f'c& = {v}']), ('to-SINGLE', [f'c! = {v}']),
+                 ('subscript', ['DIM x%(3)', f'x%({v}) = 1']), ('FOR-limit', [f'FOR i% = 1 TO {v}', 'NEXT']),
+                 # (from -inf the loop never ends: -inf + 1 = -inf; not a totality matter)
+                 ] + ([('FOR-double', [f'FOR d# = {v} TO 1', 'NEXT'])] if tag != '-inf' else []) + [
+
+                 ('SELECT', [f'SELECT CASE {v}', 'CASE 1', 'PRINT "c"', 'END SELECT']),
+                 ('PRINT', [f'PRINT {v}; "x", {v}']), ('PRINT-USING', [f'PRINT USING "##.##"; {v}']),
+                 ('LOCATE', [f'LOCATE {v}, 1']), ('SOUND', [f'SOUND {v}, 1']),
+                 ('value-parameter', [f'CALL cq(({v}))'])]
+        for name, st in stmts:
+            out.append(_case(f'nonfinite/{tag}/{name}', 'overflow', 'non-finite', MAYBE(OVF, IFC, DIV0),
+                             setup=setup, stmt=st, operands='#',
+                             tail=['SUB cq (p%)', 'PRINT "q"', 'END SUB'] if name == 'value-parameter' else (),
+                             tier='q' if tag != '-inf' else 't'))
     return out
 
 
@@ -570,6 +613,18 @@ def outside_cases(tier):
     for wt, wv in WIDE_POOL:
         add(f'BLOAD/wide-offset/{wv}{wt}', 'BLOAD', [f'w{wt} = {wv}'], [f'BLOAD "f", w{wt}'])
         add(f'BSAVE/wide-length/{wv}{wt}', 'BSAVE', [f'w{wt} = {wv}'], [f'BSAVE "f", 0, w{wt}'])
+    # the screen segment is the one the implementation's own peripherals serve
+    for s in STR_POOL:
+        add(f'BLOAD/screen/{s[:12]!r}{len(s)}', 'BLOAD', [f's$ = "{s}"'],
+            ['DEF SEG = &HB800', 'BLOAD s$, 0'])
+        add(f'BSAVE/screen/{s[:12]!r}{len(s)}', 'BSAVE', [f's$ = "{s}"'],
+            ['DEF SEG = &HB800', 'BSAVE s$, 0, 10'])
+    for v in pool:
+        add(f'POKE/screen/offset={v}', 'POKE', [f'v% = {v}'], ['DEF SEG = &HB800', 'POKE v%, 65'])
+        add(f'POKE/screen/value={v}', 'POKE', [f'v% = {v}'], ['DEF SEG = &HB800', 'POKE 0, v%'])
+        add(f'PEEK/screen/{v}', 'PEEK', [f'v% = {v}'], ['DEF SEG = &HB800', 'r% = PEEK(v%)'])
+        add(f'PEEK/segment0/{v}', 'PEEK', [f'v% = {v}'], ['DEF SEG = 0', 'r% = PEEK(v%)'], t='t')
+    add('PEEK/keyboard-flags', 'PEEK', [], ['DEF SEG = 0', 'POKE 1047, 0', 'r% = PEEK(1047)'])
     # the rest of the device statements
     add('CLS', 'CLS', [], ['CLS'])
     add('BEEP', 'BEEP', [], ['BEEP'])
@@ -591,6 +646,7 @@ USING_VALUES = [
     ('string-number', 'PRINT USING f$; v$, v#', ['v$ = "q"', 'v# = 0']),
     ('big-number', 'PRINT USING f$; v#;', ['v# = 1d300']),
     ('integer', 'PRINT USING f$; v%', ['v% = -32768']),
+    ('no-values', 'PRINT USING f$;', []),
 ]
 
 
@@ -619,7 +675,7 @@ def using_source(vname, arming):
 USING_VALUE_KINDS = {
     'number': ['num'], 'string': ['str'], 'empty-string': ['empty'],
     'number-string': ['num', 'str'], 'string-number': ['str', 'num'],
-    'big-number': ['num'], 'integer': ['num'],
+    'big-number': ['num'], 'integer': ['num'], 'no-values': [],
 }
 
 
@@ -677,6 +733,8 @@ def using_demand(fmt, vname):
     if dangling:
         return 'dangling-escape'
     vals = USING_VALUE_KINDS[vname]
+    if not vals:
+        return 'no-values'
     for f, v in zip(fields, vals):
         if f == 'num' and v != 'num':
             return 'string-into-numeric-field'
@@ -776,7 +834,8 @@ def build_source(case, arming, ctx='assign', site='main'):
 
 
 def error_cases(tier):
-    cs = (div_cases() + overflow_arith_cases() + overflow_conv_cases() + subscript_cases()
+    cs = (div_cases() + overflow_arith_cases() + nonfinite_cases() + overflow_conv_cases()
+          + subscript_cases()
           + ifc_cases() + data_cases() + outside_cases(tier))
     if tier == 'quick':
         cs = [c for c in cs if c['tier'] == 'q']
@@ -794,10 +853,20 @@ def variants(case, tier):
         out.append(('-', 'main'))
         if case['cause'] != 'outside':
             sites = ['sub', 'for'] if tier == 'quick' else SITES[1:]
+            if case['construct'] == 'READ':
+                # the DATA pool is consumed once: no site that repeats the body
+                sites = [x for x in (['sub', 'if'] if tier == 'quick' else SITES[1:])
+                         if x not in ('for', 'while')]
             # DATA and TYPE stay at module level; everything else moves
             out.extend(('-', s) for s in sites)
         return out
     ctxs = CONTEXTS_N if case['rtype'] == 'n' else CONTEXTS_S
+    if case['expect'] == OK:
+        # a control completes only where its value is not constrained further:
+        # as a subscript (xa%(0..3)), as an operand (v * 2 in the operand's own
+        # type) or as a condition (narrowed to INTEGER by qbee - C01's finding)
+        # a limit value fails for a reason that is not the case's subject
+        ctxs = [c for c in ctxs if c not in ('index', 'operand', 'if')]
     if tier == 'quick':
         if case['cause'] == 'none':
             return [('assign', 'main'), ('print', 'main')]
@@ -956,16 +1025,16 @@ def interrupt_programs():
     # programs in which a handler is (or becomes) armed
     p('handler-goto', ['ON ERROR GOTO h', 'a% = 0', 'PRINT 1 \\ a%', 'PRINT "after"',
                        'FOR i% = 1 TO 3', 'PRINT i%', 'NEXT', 'END', 'h:', 'PRINT "H"; ERR',
-                       'RESUME NEXT'], armed=True)
+                       'RESUME NEXT'], armed='goto')
     p('handler-overflow-resume', ['ON ERROR GOTO h', 'a% = 32767', 'a% = a% + 1', 'PRINT a%',
-                                  'END', 'h:', 'a% = 0', 'RESUME'], armed=True)
+                                  'END', 'h:', 'a% = 0', 'RESUME'], armed='goto')
     p('handler-next', ['ON ERROR RESUME NEXT', 'DIM a%(3)', 'a%(5) = 1', 'PRINT "after"',
-                       'FOR i% = 1 TO 3', 'PRINT i%', 'NEXT'], armed=True)
+                       'FOR i% = 1 TO 3', 'PRINT i%', 'NEXT'], armed='next')
     p('handler-late', ['FOR i% = 1 TO 3', 'PRINT i%', 'NEXT', 'ON ERROR GOTO h', 'PRINT CHR$(300)',
-                       'ON ERROR GOTO 0', 'PRINT "off"', 'END', 'h:', 'RESUME NEXT'], armed=True)
+                       'ON ERROR GOTO 0', 'PRINT "off"', 'END', 'h:', 'RESUME NEXT'], armed='goto')
     p('handler-in-sub', ['ON ERROR GOTO h', 'CALL s', 'PRINT "back"', 'END', 'h:', 'PRINT "H"',
                          'RESUME NEXT', 'SUB s', 'DIM a%(2)', 'a%(3) = 1', 'PRINT "in"', 'END SUB'],
-      armed=True)
+      armed='goto')
     return P
 
 
